@@ -426,6 +426,60 @@ def run_bounded(run, mod, known):
         run.assumptions.add(a)
 
 
+def run_frames(run, mod, known):
+    """C08 frame obligations: tagged nondeterminism reads found in the source must be declared (pyvc/frames.py)."""
+    from . import frames as F
+    decl = dict(getattr(mod, "FRAMES", {}))
+    decl.update(getattr(mod, "FRAMES_BY_DESIGN", {}))
+    if not decl:
+        return
+    os.makedirs(os.path.join(OUT, "replays"), exist_ok=True)
+    for target, allowed in sorted(decl.items()):
+        try:
+            fn, path, src = source_function(target)
+        except Stale as e:
+            run.stale.append({"contract": "frame:" + target, "reason": str(e)})
+            run.say("STALE contract=frame:%s reason=%s" % (target, e))
+            continue
+        reads = F.tagged_reads(fn)
+        tags_found = sorted({t for (t, _, _) in reads})
+        all_tags = ["GLOBAL_RNG", "ENTROPY", "HASHSEED", "FSORDER"]
+        n_ok = 0
+        for tag in all_tags:
+            run.obligations += 1
+            bad = [(t, ln, txt) for (t, ln, txt) in reads if t == tag and tag not in allowed]
+            if not bad:
+                run.discharged += 1
+                n_ok += 1
+                continue
+            key = {"target": target, "obligation": "frame.%s" % tag}
+            kf = match_known(known, run.prop, "obligation", key)
+            if kf is not None:
+                run.known.append(kf)
+                run.say("KNOWN-FINDING: property=%s %s [frame %s of %s]" % (run.prop, kf["what"], tag, target))
+                continue
+            rid = hashlib.md5(("%s:%s" % (target, tag)).encode()).hexdigest()[:8]
+            rpath = os.path.join(OUT, "replays", "%s-frame-%s-%s.json" % (run.prop, target.split(".")[-1], rid))
+            json.dump({"property": run.prop, "target": target, "obligation": "frame.%s" % tag,
+                       "clause": "%s reads %s outside its declared frame %s" % (target, tag, sorted(allowed)),
+                       "reads": [{"tag": t, "line": ln, "source": txt} for (t, ln, txt) in bad],
+                       "file": os.path.relpath(path, REPO), "replayed": False,
+                       "note": "syntactic frame obligation: the witness is the source location, not an input"},
+                      open(rpath, "w"), indent=1)
+            rel = os.path.relpath(rpath, OUT)
+            run.violations.append({"obligation": "%s:frame.%s" % (target, tag), "replay": rel, "replayed": False})
+            run.say("VIOLATION property=%s replay=%s no-failing-input-found" % (run.prop, rel))
+        run.functions.append({"qualname": target, "file": os.path.relpath(path, REPO),
+                              "lines": [fn.lineno, fn.end_lineno], "sha256": strip_for_hash(fn),
+                              "obligations": len(all_tags), "discharged": n_ok, "backends": {"frame-analysis": n_ok},
+                              "solver_s": 0.0, "abstracted_statements": [], "callee_contracts_used": [],
+                              "declared_frame": allowed, "tagged_reads_found": tags_found})
+        run.backends["frame-analysis"] = run.backends.get("frame-analysis", 0) + n_ok
+    run.samples.append({"obligation": "frame obligations", "kind": "frame",
+                        "clause": "tagged reads of GLOBAL_RNG / ENTROPY / HASHSEED / FSORDER within the declared frame",
+                        "verdict": "see functions_under_contract[].tagged_reads_found"})
+
+
 def run_mutants(run, mod, contracts, registry):
     """Thorough tier: in-memory mutation canaries.  A mutant that still verifies means the contract (or engine)
     is too weak -> checker error."""
@@ -528,6 +582,7 @@ def main(argv=None):
                         run.errors.append("postcondition of %s mentions the constant %s" % (c.target, name))
         failed = verify_contracts(run, contracts, registry)
         triage(run, failed, known, mods)
+        run_frames(run, mod, known)
         if not args.no_bounded:
             run_bounded(run, mod, known)
         if run.tier == "thorough" or args.mutants:
